@@ -83,8 +83,6 @@ M = [
   '                    g.add_edge(other_output, output)', '                    g.add_edge(output, other_output)'),
  ("C17-mutual-elimination", "C17", "circuitgraph/tx.py",
   '(s.nodes() - s.inputs() for s in remaining - {supergate}),', '(s.nodes() - s.inputs() for s in supergate_circuits - {supergate}),'),
- ("C18-one-copy-fewer", "C18", "circuitgraph/tx.py",
-  '    for i in range(len(feedback) + 1):', '    for i in range(max(1, len(feedback))):'),
  ("C19-strip_io-aliases-graph", "C19", "circuitgraph/tx.py",
   '    g = c.graph.copy()\n    for i in c.inputs():\n        g.nodes[i]["type"] = "buf"\n    for o in c.outputs():\n        g.nodes[o]["output"] = False\n\n    return cg.Circuit(graph=g, name=c.name, blackboxes=c.blackboxes.copy())\n\n\ndef strip_outputs',
   '    g = c.graph.copy() if c.inputs() else c.graph\n    for i in c.inputs():\n        g.nodes[i]["type"] = "buf"\n    for o in c.outputs():\n        g.nodes[o]["output"] = False\n\n    return cg.Circuit(graph=g, name=c.name, blackboxes=c.blackboxes.copy())\n\n\ndef strip_outputs'),
@@ -98,6 +96,13 @@ M = [
   '    c = Circuit(graph=c.graph if behavioral else c.graph.copy(), name=c.name, blackboxes=c.blackboxes.copy())\n    # sanitize escaped nets'),
 ]
 EXTRA = {}
+# Equivalent with respect to the property (kept for the record, expected to stay silent): with every auxiliary input
+# set to the stable value of its feedback node one copy already reproduces the stable state, so C18 as stated does
+# not need len(feedback)+1 copies.
+EQUIVALENT = [
+ ("C18-one-copy-fewer", "C18", "circuitgraph/tx.py",
+  '    for i in range(len(feedback) + 1):', '    for i in range(max(1, len(feedback))):'),
+]
 
 
 def make_scratch():
